@@ -461,7 +461,8 @@ Qed.
 Lemma qsum_fromE (f : nat -> F) lo k : qsum_from RA f lo k = \sum_(lo <= j < lo + k) f j.
 Proof.
 elim: k lo => [|k IH] lo /=; first by rewrite addn0 big_geq.
-by rewrite IH big_ltn ?addSnnS // -addSnnS leq_addr.
+rewrite IH addSnnS [RHS]big_ltn //.
+by rewrite -addSnnS ltnS leq_addr.
 Qed.
 
 (* x solves rows i >= n-k of the (upper part of the) system R x = b *)
